@@ -40,6 +40,7 @@ type Event struct {
 	Depth   int
 	Read    StateSet // for guard: the values the tested read may have had, after refinement
 	Stale   bool     // for guard: an own state write happened between the read and the test
+	ReadVal ssa.Value // for guard: the read that was tested
 }
 
 func (e Event) String() string {
@@ -678,7 +679,7 @@ func (t *Tracer) refineRead(fr *frame, x ssa.Value, cv int64, eq, branch bool, p
 		p.st = ns
 	}
 	t.emit(p, fr, Event{Kind: "guard", Name: fmt.Sprintf("state%s%s", map[bool]string{true: "==", false: "!="}[eq], t.M.StateNames[cv]),
-		Pos: pos, Outcome: fmt.Sprint(branch), Read: ri.set, Stale: ri.epoch != p.epoch})
+		Pos: pos, Outcome: fmt.Sprint(branch), Read: ri.set, Stale: ri.epoch != p.epoch, ReadVal: x})
 	return true
 }
 
@@ -1005,4 +1006,12 @@ func (m *SessionModel) Method(name string) *ssa.Function {
 		}
 	}
 	return nil
+}
+
+// MsgTypeKeyOfBuilder: v is a load of MessageBuilders.<K>Builder → K.
+func (m *SessionModel) MsgTypeKeyOfBuilder(v ssa.Value) string {
+	if f, _ := LoadedField(v); f != nil && strings.HasSuffix(f.Name(), "Builder") {
+		return strings.TrimSuffix(f.Name(), "Builder")
+	}
+	return "?"
 }
